@@ -228,6 +228,7 @@ func planC10(prop string, seed uint64, tier string, idx int) *Plan {
 		}
 	}
 	extra := g.newBlob(g.blobSize())
+	materialise(g.p.Objs)
 	all := append(append(append([]int{}, images...), indexes...), arts...)
 	n := g.scale(g.r.between(8, 26))
 	for i := 0; i < n; i++ {
@@ -271,6 +272,17 @@ func planC10(prop string, seed uint64, tier string, idx int) *Plan {
 				g.add(Op{K: "refs", Repo: repo, Obj: images[0], A: g.r.intn(2)})
 			}
 		case 8:
+			if g.r.chance(25) {
+				// names that would put a repository inside the layout of another one
+				name := g.p.Repos[repo] + "/" + g.r.str("blobs", "blobs/sha256", "blobs/sha256/x", "index.json", "oci-layout/x", "blobs/x/y")
+				rq := &RawReq{Method: "GET", Path: "/v2/" + name + "/tags/list"}
+				if g.r.chance(50) {
+					b := g.p.Objs[extra]
+					rq = &RawReq{Method: "POST", Path: "/v2/" + name + "/blobs/uploads/", Query: "digest=" + b.digest("sha256"), Body: b.data}
+				}
+				g.add(Op{K: "raw", Raw: rq, S: "reserved"})
+				break
+			}
 			g.add(g.readOp(repo))
 		default:
 			g.gcHistoryOp(repo, images, indexes, arts, extra)
